@@ -87,4 +87,12 @@ CHECKS = {
           "the identity for eps <= 0, and keep rings closed / >= 4 coordinates."),
     note="Trusted: TLC rational arithmetic. Ties (equal distances / areas, dmax = eps) are modelled as nondeterminism, so float rounding at ties cannot raise an alarm.",
     technique="TLA+ nondeterministic algorithm models (admissible-output sets) checked against postconditions by TLC; spec->impl replay", design_ref="DESIGN.md 5 C09"),
+ "C14": dict(
+    text=("Gen_Valid.tla states OGC validity as exact predicates on the witness lattice and enumerates valid and invalid shapes: all "
+          "closed octilinear walks as rings (bow-tie, spike, flat, self-touching), shells with one or two candidate holes in every "
+          "relative position, all pairs of simple rings as MultiPolygons, plus every general-slope lattice polygon from Gen_Poly. "
+          "Replay demands is_valid = verdict, validation_errors non-empty iff invalid, every reported error to name rings / members "
+          "that really have that defect, and NonFiniteCoord for injected NaN / infinities."),
+    note=_TB + " Repeated consecutive vertices and interior connectedness are outside what the property fixes and are not generated / demanded.",
+    technique="TLA+ validity predicates (witness lattice) enumerated by TLC over valid and invalid shapes; spec->impl replay", design_ref="DESIGN.md 5 C14"),
 }
